@@ -168,6 +168,17 @@ func c11Floor(tier string) []*ClientSc {
 				}
 			}
 		}
+		// the server sends only part of the k-th reply and goes away
+		for k := 0; k < 3; k++ {
+			for part := 1; part <= 7; part += 2 {
+				for _, rst := range []bool{false, true} {
+					bh := make([]ReqBehav, 8)
+					bh[k] = ReqBehav{Partial: part, ResetAfter: rst}
+					out = append(out, &ClientSc{Prop: "C11", Enforce: enforce, Suffix: 3, FinalClose: true, Behav: bh, Chunk: simnet.ChunkRandom,
+						Callers: []CallerSc{{Calls: []CallSc{{Kind: "request"}, {Kind: "request"}, {Kind: "batch", N: 2}}}}})
+				}
+			}
+		}
 		// the server closes right after the k-th reply, seen as EOF or as data+EOF
 		for k := 0; k < 4; k++ {
 			for _, de := range []bool{false, true} {
